@@ -744,3 +744,33 @@ func isFieldLoad(v ssa.Value, fld *types.Var) (ssa.Value, bool) {
 	}
 	return nil, false
 }
+
+// wholeStoresOfNamed lists stores of a whole struct value of the root-package
+// named type `name` (e.g. `slots[i] = sourceValue{...}`), which overwrite every
+// field at once and are not seen by storesToField.
+func (w *World) wholeStoresOfNamed(name string) []*ssa.Store {
+	var out []*ssa.Store
+	for _, f := range w.Funcs {
+		for _, i := range allInstrs(f) {
+			st, ok := i.(*ssa.Store)
+			if !ok {
+				continue
+			}
+			if namedTypeName(st.Val.Type()) != "."+name {
+				continue
+			}
+			// stores into a local composite-literal temporary are construction, not slot writes
+			if a, ok := st.Addr.(*ssa.Alloc); ok && !a.Heap {
+				continue
+			}
+			if _, ok := st.Addr.(*ssa.IndexAddr); ok {
+				out = append(out, st)
+				continue
+			}
+			if _, ok := st.Addr.(*ssa.Alloc); !ok {
+				out = append(out, st)
+			}
+		}
+	}
+	return out
+}
